@@ -1,4 +1,5 @@
 import Stackage.Lemmas.Push
+import Stackage.Model.Policy
 
 /-!
 # C14 — user-supplied policies decide, exactly as documented (push policy part)
@@ -85,4 +86,88 @@ example : ∃ s : Stk, s.WF ∧ s.cfg.ppf = some 1 :=
   ⟨⟨{ kind := 4, ppf := some 1 }, []⟩, ⟨by unfold SmallLen; rw [pow62]; simp, Or.inl rfl⟩, rfl⟩
 
 end Stk
+end Stackage
+
+/-! ## The other five closures -/
+
+namespace Stackage
+open Stackage
+
+/-- **Valid (Stack).** With a validity closure installed, `Valid()` reports an error exactly when the closure does -/
+theorem C14_valid_stack (K : Closures) (s : Stk) (p : Nat) (hp : s.cfg.vpf = some p) :
+    s.ValidE K = none ↔ K.valid p = none := by
+  unfold Stk.ValidE Stk.valid; rw [hp]
+  cases h : K.valid p <;> simp [h]
+
+/-- … and a Stack the closure rejects renders as the empty string -/
+theorem C14_rejected_renders_empty (K : Closures) (s : Stk) (p e : Nat) (hp : s.cfg.vpf = some p)
+    (hr : K.valid p = some e) : s.String K = [] := by
+  unfold Stk.String Cfg.canString; rw [hp]; simp [hr]
+
+/-- **Valid (Condition).** A Condition returns that very error -/
+theorem C14_valid_cond (K : Closures) (c : Cnd) (p : Nat) (hp : c.cfg.vpf = some p) : c.valid K = K.valid p := by
+  unfold Cnd.valid; rw [hp]
+
+/-- **Presentation.** With a presentation closure installed, `String()` of a valid non-BASIC stack is the closure's result -/
+theorem C14_present (K : Closures) (s : Stk) (p : Nat) (hp : s.cfg.rpf = some p) (hc : s.cfg.canString K = true) :
+    s.String K = K.present p := by
+  unfold Stk.String; rw [hc, hp]; rfl
+
+theorem C14_present_cond (K : Closures) (c : Cnd) (p : Nat) (hp : c.cfg.rpf = some p) (hv : c.valid K = none) :
+    c.string K = K.present p := by
+  unfold Cnd.string condString
+  have : condValid K c.cfg c.kw c.op c.ex = true := by
+    unfold condValid Cnd.valid at *
+    cases hvp : c.cfg.vpf with
+    | some q => simp [hvp] at hv ⊢; simp [hv]
+    | none =>
+      simp only [hvp] at hv ⊢
+      cases hk : c.kw.isEmpty
+      · cases hop : c.op with
+        | none => simp [hk, hop] at hv
+        | user i a b => cases he : c.ex.isNil <;> simp_all
+        | cmp code => cases hb : Gen.cond_op_bogus { assert := code } <;> cases he : c.ex.isNil <;> simp_all
+      · simp [hk] at hv
+  rw [this]; unfold condAssemble; rw [hp]; rfl
+
+/-- **Unmarshal / Marshal.** With the closure installed the method returns the closure's result -/
+theorem C14_unmarshal (K : Closures) (s : Stk) (p : Nat) (hp : s.cfg.umf = some p) : s.UnmarshalP K = K.unmarshal p := by
+  unfold Stk.UnmarshalP; rw [hp]
+
+theorem C14_unmarshal_cond (K : Closures) (c : Cnd) (p : Nat) (hp : c.cfg.umf = some p) : c.UnmarshalP K = K.unmarshal p := by
+  unfold Cnd.UnmarshalP; rw [hp]
+
+theorem C14_marshal (K : Closures) (interp : Nat → Val → Option Nat) (s : Stk) (p : Nat) (x : Val) (xs : List Val)
+    (hp : s.cfg.maf = some p) : s.MarshalP K interp (x :: xs) = (s, K.marshal p) := by
+  unfold Stk.MarshalP; rw [hp]
+
+/-- **Equality.** With an equality closure installed, `IsEqual` against a Stack (any form) returns the closure's result -/
+theorem C14_equal (hook : EqHook) (same : Bool) (f f' : Form) (c c' : Cfg) (xs ys : List Val) (p : Nat) (hp : c.eqf = some p) :
+    Val.IsEqual hook same (.stk f c xs) (.stk f' c' ys) = .ok (hook p (.stk .native c xs) (.stk f' c' ys)) := by
+  simp only [Val.IsEqual, hp]
+
+/-- **Removing a closure restores the built-in behaviour**: the setters only write the one field, and each
+method consults only its own field, so after removal the configuration is the one without the closure -/
+theorem C14_remove_validity (s : Stk) (hr : s.readOnly = false) : (s.setVpf none).cfg = { s.cfg with vpf := none } ∧ (s.setVpf none).xs = s.xs := by
+  unfold Stk.setVpf; simp [hr]
+
+theorem C14_remove_presentation (K : Closures) (s : Stk) (hr : s.readOnly = false) (hk : s.cfg.kind ≠ Gen.kind_basic) :
+    (s.setRpf none).String K = ({ s with cfg := { s.cfg with rpf := none } } : Stk).String K := by
+  unfold Stk.setRpf
+  have : (s.cfg.kind == Gen.kind_basic) = false := by simpa using hk
+  simp [hr, this]
+
+theorem C14_remove_unmarshaler (K : Closures) (s : Stk) (hr : s.readOnly = false) :
+    (s.setUmf none).UnmarshalP K = (s.unmarshal, none) := by
+  unfold Stk.setUmf Stk.UnmarshalP; simp [hr, Stk.unmarshal]; rfl
+
+/-- **BASIC** refuses a presentation policy, records an error and renders as the empty string -/
+theorem C14_basic (K : Closures) (s : Stk) (p : Option Nat) (hr : s.readOnly = false) (hk : s.cfg.kind = Gen.kind_basic) :
+    (s.setRpf p).cfg.rpf = s.cfg.rpf ∧ (s.setRpf p).cfg.err = some 1021 ∧ (s.setRpf p).String K = [] := by
+  unfold Stk.setRpf
+  have : (s.cfg.kind == Gen.kind_basic) = true := by simp [hk]
+  simp only [hr, Bool.false_eq_true, ↓reduceIte, this, true_and]
+  unfold Stk.String Cfg.canString
+  simp [hk]
+
 end Stackage
